@@ -326,6 +326,9 @@ CONFS = {
     'mode-mismatch': dict(b_entry=dict(mode='tunnel')),
     'psk-mismatch': dict(b_over=dict(peer_auth={"id": "alice@openikev2", "psk": "wrong"})),
     'ike-dh-preference': dict(a_over=dict(dh=['ecp384', 'ecp256'])),
+    # the responder picks something else than the first transform of each type the initiator lists
+    'ike-suite-preference': dict(a_over=dict(integ=['sha512', 'sha1'], encr=['aes256', 'aes128'], prf=['sha512', 'sha1']),
+                                 b_over=dict(integ=['sha1'], encr=['aes128'], prf=['sha1'])),
     'child-dh-mismatch': dict(a_entry=dict(dh=['ecp384']), b_entry=dict(dh=['ecp256'])),
     'sha1-aes128': dict(a_over=dict(integ=['sha1'], encr=['aes128']), b_over=dict(integ=['sha1'], encr=['aes128'])),
     'sha512': dict(a_over=dict(integ=['sha512']), b_over=dict(integ=['sha512'])),
@@ -345,10 +348,18 @@ def harvest(w, keys):
                 if c is None:
                     continue
                 try:
-                    keys[(name, bytes(s.spi_i), bytes(s.spi_r))] = (bytes(c.sk_e), ICV2INTEG[c.integrity.hash_size],
-                                                                    bytes(c.sk_a))
+                    # the keys of the sender's direction as the key ring names them and the integrity algorithm of the
+                    # negotiated suite - not whatever the Crypto object in use happens to hold
+                    kr, prop = s.ike_sa_keyring, s.chosen_proposal
+                    integ = int(prop.get_transform(M.Transform.Type.INTEG).id)
+                    sk_e, sk_a = (kr.sk_ei, kr.sk_ai) if s.is_initiator else (kr.sk_er, kr.sk_ar)
+                    keys[(name, bytes(s.spi_i), bytes(s.spi_r))] = (bytes(sk_e), integ, bytes(sk_a))
                 except Exception:   # noqa
-                    pass
+                    try:
+                        keys[(name, bytes(s.spi_i), bytes(s.spi_r))] = (bytes(c.sk_e), ICV2INTEG[c.integrity.hash_size],
+                                                                        bytes(c.sk_a))
+                    except Exception:   # noqa
+                        pass
 
 
 def step(w, ev, keys):
